@@ -228,7 +228,15 @@ def apply_op(pool, op, labels, flags):
     elif kind == "all":
         vec = [float(x) for x in op[2]]
         accepted = m.copy().setall(vec)
+        # a list, a flat array, or the same values as an [n, 1] column, a
+        # [1, n] row or a [2, n/2] block (all accepted and flattened)
         given = list(vec) if op[3] == "list" else np.array(vec)
+        if op[3] == "column":
+            given = given[:, None].copy()
+        elif op[3] == "row":
+            given = given[None, :].copy()
+        elif op[3] == "block" and len(vec) % 2 == 0 and len(vec) >= 4:
+            given = given.reshape(2, -1).copy()
         try:
             v.values = given
             raised = False
@@ -454,7 +462,8 @@ def machine_factory(tier, rec):
 
         @rule(k=st.integers(0, 7), data=st.data(),
               wrong=st.sampled_from([0, 0, 0, 0, 1, -1]),
-              cont=st.sampled_from(["list", "array"]))
+              cont=st.sampled_from(["list", "array", "array", "column",
+                                    "row", "block"]))
         def set_all(self, k, data, wrong, cont):
             m = self.pool[k % len(self.pool)][1]
             n = len(m.names)
